@@ -269,7 +269,7 @@ func (w *vfC12World) pre(shape int, concreteKeys bool) []vfC12Op {
 	case 3:
 		ops = append(ops, set(0), vfC12Op{kind: 1, who: 0, key: vfC12Key(concreteKeys), stage: true})
 	}
-	if vf.Choice("preAcc", 2) == 1 {
+	if vf.Param("preAcc", 1) != 0 && vf.Choice("preAcc", 2) == 1 {
 		ops = append(ops, vfC12Op{kind: 2, who: vfC12Acc("preAccWho"), nonce: vf.U64("nonce"), bal: vf.Bytes("bal", 2)})
 	}
 	for _, op := range ops {
